@@ -471,14 +471,24 @@ func checkFrameLifecycle(res *core.Result, b *frame.Builder, r *rand.Rand, fwd, 
 		}
 	}
 	// the destination answers in place over the reversed block
+	// (either over a copy of the block or - the shorter way to write it - reversing the block where it is and
+	// handing the frame's own block to Reply)
 	rb := append([]byte(nil), f.SwitchBlock()...)
 	m.TransformToReturnBlock(rb)
+	want := append([]byte(nil), rb...)
+	if replySize <= len(msg) && r.IntN(2) == 0 {
+		// (only when the reply fits the buffer the frame lives in: where Reply has to move the frame to a bigger
+		// buffer the old one is released, and a reference into it is the caller's mistake, not judged here)
+		m.TransformToReturnBlock(f.SwitchBlock())
+		rb = f.SwitchBlock()
+		res.Count("frame_lifecycle_replies_over_the_frames_own_block", 1)
+	}
 	reply := core.RandBytes(r, replySize)
 	if err := f.Reply(rb, reply, nil); err != nil {
 		res.Violate("frame-lifecycle:reply-refused", fmt.Sprintf("turning the frame into a %d-byte reply over its reversed %d-byte block failed: %v", replySize, size, err), wit)
 		return
 	}
-	ref = append([]byte(nil), rb...)
+	ref = want
 	if !onWire("after turning the frame into a reply", reply) {
 		return
 	}
